@@ -14,7 +14,7 @@ import gen
 from gen import F, enc_label, dec_label, LabelTable, coq_obs
 import w_c17_py as PYK
 
-KIND_WEIGHTS = [('gate', 30), ('comb', 14), ('mwis', 14), ('mult', 2), ('multwire', 2), ('qap', 6), ('magic', 4), ('sat', 8), ('qknap', 6), ('anticross', 2),
+KIND_WEIGHTS = [('gate', 30), ('comb', 14), ('mwis', 14), ('mult', 1), ('multwire', 2), ('qap', 6), ('magic', 4), ('sat', 8), ('qknap', 6), ('anticross', 2),
                 ('knapsack', 10), ('binpacking', 8), ('multiknapsack', 8), ('random', 14)]
 STRENGTHS = ['1/2', '1', '2', '3']
 GATES = {'and': ('and_gate', 3, 'GAnd'), 'or': ('or_gate', 3, 'GOr'), 'xor': ('xor_gate', 4, 'GXor'),
